@@ -48,6 +48,8 @@ package queue
 //@ func (Store).Read
 //@ params q, pids
 //@ modifies heap
+// (a queue read does not touch the connection objects or the identity of the limiter's parts)
+//@ preserves all(server.client.*), all(server.ClientOptions.*), all(server.packetIDLimiter.cond), all(server.packetIDLimiter.lockedPid), all(server.packetIDLimiter.limit), all(sync.Cond.L)
 //@ ensures result1 != nil ==> result0 == nil
 //@ ensures len(result0) <= len(pids)
 //@ ensures forall i int :: 0 <= i && i < len(result0) ==> result0[i] != nil && result0[i].MessageWithID.(type *Publish) && result0[i].MessageWithID.(*Publish) != nil && result0[i].MessageWithID.(*Publish).Message != nil
